@@ -193,7 +193,9 @@ inline void run_tunnel(Tape &t, Mode mode, Run &R)
 		else { o.dst = -1; if (c.nclients > 1 && t.chance(1, 3)) { o.dst = (int)t.below(c.nclients); if (o.dst == side) o.dst = -1; } }
 		Bytes dst = o.dst < 0 ? sip : (o.dst == 9 ? Bytes{sip[0], sip[1], sip[2], (uint8_t)(sip[3] ^ 0x80)} : cip[o.dst]);
 		Bytes src = side < 0 ? sip : cip[side];
-		size_t maxbody = t.chance(1, 8) ? 3800 : 1400;
+		// the tunnel MTU is at most 1500 (iodined refuses more) unless the administrator raised the interface MTU by hand; the
+		// larger sizes exercise every buffer on the way with packets the tun device can still deliver in that case
+		static const size_t MB[] = {1400, 3800, 6000}; size_t maxbody = MB[t.pick({14, 2, 1})];
 		if (mode == CLEAN || mode == REDELIVER) {
 			// (a) judges exactly-once delivery; an oversize packet is self-inflicted trouble (the sender retransmits
 			// an unacknowledgeable fragment for seconds and by design drops tun packets meanwhile), so clean-path
